@@ -48,6 +48,36 @@ if %d == -1:
     for i in idx: want[i] = -ref[i]
 _verdict(not np.allclose(out, want), got=out.tolist(), want=want.tolist())
 ''' % (('slice(%r, %r)' % (flip.start, flip.stop)) if isinstance(flip, slice) else repr(flip), fwd, fwd))
+    # the compiled-wrapper cache must not hand the wrapper of ONE flip setting to a later request with ANOTHER on the same base system:
+    # consecutive builds on one system without clearing the cache in between
+    db._DirectedSystem._rhs_cache.clear()
+    base_sys = create_rhs_system(base_rhs, dim)
+    seq_ok, seq_bad = True, None
+    for flip, flipset in (([0, 3], {0, 3}), (None, set(range(dim))), (slice(2, 4), {2, 3}), ([0, 3], {0, 3}), ([1], {1})):
+        out = db._DirectedSystem(base_sys, -1, flip_indices=flip).rhs(t, np.array(y))
+        if not all(same(out[i], (-ref[i] if i in flipset else ref[i])) for i in range(dim)):
+            seq_ok, seq_bad = False, flip
+            break
+    oid = 'C10/(1)directed-rhs/consecutive flip settings on one system'
+    if seq_ok:
+        chk.ok(oid, 'five backward wrappers with different flip_indices built one after the other on the same base system: each negates exactly its own components')
+    else:
+        chk.fail(oid, 'after an earlier backward wrapper on the same system, the wrapper for flip_indices=%r negates the components of an earlier request' % (seq_bad,), '''
+from hiten.algorithms.dynamics.base import _DirectedSystem
+from hiten.algorithms.dynamics.rhs import create_rhs_system
+import numba
+@numba.njit
+def base(t, y):
+    return np.array([1.0 + y[0], 2.0 + t, 3.0 * y[2], 4.0])
+sysm = create_rhs_system(base, 4); ref = np.array([1.1, 2.5, 0.9, 4.0]); bad = {}
+for n, flip in enumerate(([0, 3], None, slice(2, 4), [0, 3], [1])):
+    out = np.asarray(_DirectedSystem(sysm, -1, flip_indices=flip).rhs(0.5, np.array([0.1, 0.2, 0.3, 0.4])), dtype=float)
+    idx = range(4) if flip is None else (range(*flip.indices(4)) if isinstance(flip, slice) else flip)
+    want = ref.copy()
+    for i in idx: want[i] = -ref[i]
+    if not np.allclose(out, want): bad["request_%d_flip_%s" % (n, flip)] = "got %s, want %s" % (out.tolist(), want.tolist())
+_verdict(bool(bad), **bad)
+''')
     # fwd is normalised to +-1 by sign
     for fwd_in, want in ((2, 1), (0, 1), (-3, -1)):
         ds = db._DirectedSystem(create_rhs_system(base_rhs, dim), fwd_in)
